@@ -205,6 +205,22 @@ class C06(SimCheck):
         other["drive"] = {"mode": "steps", "n": 40}
         simimpl.run_impl(other, obeh, draw_seed=seed + 1, global_random=True)
         variants["after-other-simulation"] = cb_trace(run_variant(frozen, "rerun", seed)["trace"])
+        # another simulation (different medium: range, delay, loss) BUILT and partly run between this
+        # simulation's build and its run - parameter sweeps build all their simulators first
+
+        def build_other():
+            st = random.getstate()
+            o2, b2 = simgen.gen_scenario(stable_hash("other2", seed))
+            o2["cfg"]["defaultRange"] = fbits(3.0)
+            o2["cfg"]["nNodes"] = max(o2["cfg"]["nNodes"], case["cfg"]["nNodes"])
+            o2["cfg"]["initPos"] = (o2["cfg"]["initPos"] * 6)[:o2["cfg"]["nNodes"]]
+            o2["drive"] = {"mode": "steps", "n": 25}
+            simimpl.run_impl(o2, b2, draw_seed=seed + 2)
+            random.setstate(st)
+
+        res_i = simimpl.run_impl(copy.deepcopy(frozen), None, draw_seed=seed, global_random=True,
+                                 after_build=build_other)
+        variants["built-before-another"] = cb_trace(res_i["trace"])
         tier = getattr(self, "tier", "quick")
         hs = [1, 4242] if tier == "quick" else [0, 1, 2, 4242, 99991, 123456789]
         if tier == "quick" and stable_hash("sub", seed) % 4 != 0:
